@@ -101,6 +101,18 @@ func cliScenarios() []cliScenario {
 					"--schema-root-type=https://example.com/schemas/address=Addr",
 					p(root, abs, "order.json"), p(root, abs, "sub/address.json")}
 			}, outs: []string{"default.go", "order/order.go", "customer/customer.go", "other/other.go"}},
+		{name: "extension-less references with several candidate files (--resolve-extension order decides)",
+			files: map[string]string{
+				"root.json":      `{"$id":"https://example.com/schemas/root","type":"object","properties":{"t":{"$ref":"thing"},"u":{"$ref":"sub/other"},"v":{"$ref":"thing#/$defs/Inner"}}}`,
+				"thing.json":     `{"$id":"https://example.com/schemas/thing-json","type":"object","properties":{"code":{"type":"integer"}},"$defs":{"Inner":{"type":"object","properties":{"j":{"type":"string"}}}}}`,
+				"thing.yaml":     "$id: https://example.com/schemas/thing-yaml\ntype: object\nproperties:\n  label:\n    type: string\n$defs:\n  Inner:\n    type: object\n    properties:\n      y:\n        type: boolean\n",
+				"thing.yml":      "$id: https://example.com/schemas/thing-yml\ntype: object\nproperties:\n  other:\n    type: number\n$defs:\n  Inner:\n    type: object\n    properties:\n      m:\n        type: number\n",
+				"sub/other.yaml": "$id: https://example.com/schemas/other-yaml\ntype: object\nproperties:\n  oy:\n    type: string\n",
+				"sub/other.json": `{"$id":"https://example.com/schemas/other-json","type":"object","properties":{"oj":{"type":"integer"}}}`,
+			},
+			args: func(root string, abs bool) []string {
+				return []string{"-p", "main", "--resolve-extension", ".yml", "--resolve-extension", ".yaml", "--resolve-extension", ".json", p(root, abs, "root.json")}
+			}, outs: []string{"-"}},
 		{name: "one file with options", files: files,
 			args: func(root string, abs bool) []string {
 				return []string{"-p", "main", "-e", "-t", "--min-sized-ints", "--capitalization", "ID,SKU", "--tags", "json,yaml", p(root, abs, "order.json")}
